@@ -453,13 +453,20 @@ func TestC19Http(t *testing.T) {
 		maxLen = 5
 	}
 	bad := 0
+	jr := newTrJournal("http")
 	var rec func(prefix []htAct)
 	rec = func(prefix []htAct) {
 		nconn, npend := 0, []int{}
+		if len(prefix) > 0 && jr.skip[idx] { // wedged or died in an earlier attempt of this run: reported then
+			idx++
+			return
+		}
 		if len(prefix) > 0 {
 			var h *htRun
 			if want(idx) {
+				jr.begin(idx)
 				h = emitHttp(em, t, idx, interval, timeout, prefix, "enum")
+				jr.end()
 			} else {
 				h, _ = runHttp(t, interval, timeout, prefix)
 			}
